@@ -130,7 +130,10 @@ def rand_instance(rng, n_vars=None, max_deg=2, n_cons=None, n_removed=None, with
         cids.append(cid)
         removed.append([[constraint(cid, rng.choice([1, 2]), fn(allow_none=True), meta(rng, "r"))],
                         "" if rng.random() < 0.2 else "reason%d" % rng.randint(0, 3),
-                        sorted([["p%d" % i, str(rng.randint(0, 9))] for i in range(rng.randint(0, 2))])])
+                        # (one removed constraint in four looks as a previous penalty round leaves it: reason penalty_method /
+                        #  uniform_penalty_method, a `parameter_id` entry among the reason parameters)
+                        (sorted([["p%d" % i, str(rng.randint(0, 9))] for i in range(rng.randint(0, 2))]) if rng.random() < 0.75
+                         else sorted([["parameter_id", str(rng.randint(0, 40))]] + [["p0", "1"]][:rng.randint(0, 1)]))])
     # constraint ids only have to be unique: the lists are not stored in ascending id order half of the time
     if rng.random() < 0.5:
         rng.shuffle(cons)
